@@ -74,7 +74,7 @@ func execProgram(p Program, render bool) (fail string, failAt int, coq string, s
 		f, at, cq, s := execProgramRaw(p, render, &progress)
 		ch <- result{f, at, cq, s}
 	}()
-	limit := 20*time.Second + time.Duration(len(p.Ops))*2*time.Millisecond
+	limit := 10*time.Second + time.Duration(len(p.Ops))*2*time.Millisecond
 	select {
 	case r := <-ch:
 		return r.fail, r.failAt, r.coq, r.st
@@ -100,6 +100,7 @@ func execProgramRaw(p Program, render bool, progress *int32) (fail string, failA
 	heights := map[string]int{} // live key -> height of its node
 	var sb []string
 	idx := 0
+	lastReset := -1
 	defer func() {
 		if e := recover(); e != nil {
 			fail = fmt.Sprintf("panic in %s (op %d): %v", p.Ops[idx].Name, idx, e)
@@ -233,6 +234,7 @@ func execProgramRaw(p Program, render bool, progress *int32) (fail string, failA
 				delete(its, id)
 			}
 			db.Reset()
+			lastReset = idx
 			hg.reset()
 			or = newOracle(cmp)
 			heights = map[string]int{}
@@ -385,6 +387,27 @@ func execProgramRaw(p Program, render bool, progress *int32) (fail string, failA
 	}
 	for _, it := range its {
 		it.Release()
+	}
+	// Reset and reuse must be indistinguishable from a fresh DB: the writes after the last Reset,
+	// applied to memdb.New, must give identical internal arrays (node heights included)
+	if fail == "" && lastReset >= 0 {
+		idx = len(p.Ops) - 1
+		fresh := memdb.New(cmp, p.Capacity)
+		for _, o := range p.Ops[lastReset+1:] {
+			switch o.Kind {
+			case oPut:
+				fresh.Put(unhx(o.K), unhx(o.V))
+			case oDel:
+				fresh.Delete(unhx(o.K))
+			}
+		}
+		a, b := db.VerifDump(), fresh.VerifDump()
+		if fmt.Sprint(a.NodeData) != fmt.Sprint(b.NodeData) || !bytes.Equal(a.KvData, b.KvData) ||
+			a.MaxHeight != b.MaxHeight || a.N != b.N || a.KvSize != b.KvSize {
+			fail = fmt.Sprintf("after Reset (op %d) and %d more ops the DB differs from a fresh DB given the same writes: maxHeight %d/%d n %d/%d kvSize %d/%d nodeData equal: %v",
+				lastReset, len(p.Ops)-lastReset-1, a.MaxHeight, b.MaxHeight, a.N, b.N, a.KvSize, b.KvSize, fmt.Sprint(a.NodeData) == fmt.Sprint(b.NodeData))
+			failAt = len(p.Ops) - 1
+		}
 	}
 	if render {
 		coq = fmt.Sprintf("C14Prog %d [%s]", p.Cmp, strings.Join(sb, ";\n  "))
